@@ -138,6 +138,9 @@ type Observation struct {
 
 var obsWriter *bufio.Writer
 
+// defaultAgain (-again N): every run without a setting of its own is rendered N more times on the same engine
+var defaultAgain int
+
 // codePoints converts output bytes to the spec's text encoding
 func codePoints(s string) []int {
 	out := make([]int, 0, len(s))
@@ -492,6 +495,9 @@ func renderRun(c *Case, r *Run, ctx map[string]interface{}) (o obs) {
 		o.out = out
 	}
 	// Again > 0: the same engine renders the same template again; outcome and spy counts must repeat
+	if r.Again == 0 {
+		r.Again = defaultAgain
+	}
 	if r.Again > 0 && c.Cfg.FaultID == "" {
 		first := map[string]int64{}
 		for k, v := range st.counts {
@@ -798,6 +804,11 @@ func cmdReplay(args []string) {
 			defer f.Close()
 			obsWriter = bufio.NewWriterSize(f, 1<<20)
 			defer obsWriter.Flush()
+			i++
+			continue
+		}
+		if args[i] == "-again" && i+1 < len(args) {
+			fmt.Sscan(args[i+1], &defaultAgain)
 			i++
 			continue
 		}
